@@ -10,7 +10,7 @@ entries, parameters outside the constraint, unknown parameter index) exercises t
 """
 import random, struct, math
 
-BIG = [18, 19, 20, 23, 24, 25, 28, 30, 31, 31, 32, 32, 33, 33]
+BIG = list(range(18, 34)) + [31, 31, 32, 32, 32, 33, 33, 33]
 
 
 def hx(d):
